@@ -106,7 +106,7 @@ def py_abs_class_name(loc, cls):
 
 # ---------------------------------------------------------------- random include graphs
 def include_graph_inv(rng, nclasses=None, cyclic=False, refs=0.25, missing=0.0, relative=0.2, apps=True, conflicts=True,
-                      sel_override=0.0, sel_relative=0.0, nref=False):
+                      sel_override=0.0, sel_relative=0.0, nref=False, sel_alias=0.0):
     """Inventory with classes c0..cN (some in sub-directories), a random include DAG
     (edges only to higher indices unless cyclic), per-class parameters:
       trace: [<name>]            -- concatenates, so the rendered trace is the merge order
@@ -166,6 +166,16 @@ def include_graph_inv(rng, nclasses=None, cyclic=False, refs=0.25, missing=0.0, 
                     cl.append(tgt)
             else:
                 cl.append(tgt)
+        if sel_alias and rng.random() < sel_alias:
+            # two entries of ONE include list whose references reach the same parameter: `${selJ}` and
+            # `${aliJ}` with aliJ: ${selJ} (each entry is resolved on its own; the second names a class
+            # that is merged already)
+            rs = [x for x in cl if x.startswith('${sel')]
+            if rs:
+                x = rng.choice(rs)
+                ak = 'ali' + x[5:-1]
+                sel_defs[ak] = x
+                cl.insert(rng.randint(0, len(cl)), '${%s}' % ak)
         if cl and rng.random() < 0.1:
             # an entry spelled twice (the include list keeps distinct entries only)
             cl.insert(rng.randint(0, len(cl)), rng.choice(cl))
@@ -194,7 +204,7 @@ def include_graph_inv(rng, nclasses=None, cyclic=False, refs=0.25, missing=0.0, 
         if rng.random() < 0.3:
             roots.append(rng.choice(roots))
         if refs:
-            inv_sel = {v: k for k, v in sel_defs.items() if not v.startswith('.')}
+            inv_sel = {v: k for k, v in sel_defs.items() if not v.startswith('.') and not v.startswith('$')}
             roots = [('${%s}' % inv_sel[x]) if x in inv_sel and rng.random() < 0.4 else x for x in roots]
         ncl = ['sel'] + roots
         if rng.random() < 0.08:
